@@ -235,3 +235,25 @@ Qed.
 Example ex_replay_first_ok :
   exists c rest, read_n N wsym t_dec t_hkdf 1 ex_k0 ex_replayed = Some ([[1; 2]], c, rest).
 Proof. vm_compute. eauto. Qed.
+
+(* ---------------- 4. what is NOT true: reads after a failed read ---------------- *)
+(* C11_tamper_rejected speaks about the reads up to and including the first
+   failing one.  The stronger clause "no LATER read ever returns bytes that
+   were not sent as a message" is refuted by the faithful model: after a
+   corrupted length header the next ReadMessage decrypts the 18-byte body of
+   the 2-byte message [0;2] as a header and then returns the next header's
+   plaintext.  Replayed on the real Machine by the harness ("confusion" case,
+   every run).  lnd's peer closes the connection on the first read error. *)
+Definition ex_conf_msgs : list (list N) := [[0; 2]; [7; 7; 7]].
+Definition ex_conf_stream : list wsym :=
+  set_nth 0 WX (fst (ideal_stream N wsym t_enc t_hkdf ex_k0 ex_conf_msgs)).
+
+Example C11_later_reads_authentic_refuted :
+  exists c1 rest1 c2 rest2 q,
+    read_message N wsym t_dec t_hkdf ex_k0 ex_conf_stream = (Err EMac, c1, rest1) /\
+    read_message N wsym t_dec t_hkdf c1 rest1 = (Ok q, c2, rest2) /\
+    ~ In q ex_conf_msgs.
+Proof.
+  do 5 eexists. split; [vm_compute; reflexivity |]. split; [vm_compute; reflexivity |].
+  cbn. intros [H | [H | []]]; discriminate.
+Qed.
